@@ -479,13 +479,18 @@ func minimiseAndWrite(cfg CheckConfig, v Result) string {
 	var run Runner
 	slow := v.Viol.Kind == "child-died" || v.Viol.Kind == "hang"
 	budget := cfg.ShrinkFor
+	if v.Viol.Kind == "hang" {
+		// a run that exceeded the watchdog is reported as it was found:
+		// re-running it (let alone dozens of smaller variants) under a
+		// shorter watchdog could turn a merely slow candidate into a
+		// "reproduced" hang
+		budget = 0
+	}
 	if slow {
 		// one fresh process per candidate; a reproducing hang costs the
 		// whole watchdog each time, so use a short one while minimising
 		h := cfg.Hang
-		if v.Viol.Kind == "hang" && h > 10*time.Second {
-			h = 10 * time.Second
-		}
+
 		if budget > 60*time.Second {
 			budget = 60 * time.Second
 		}
@@ -500,7 +505,14 @@ func minimiseAndWrite(cfg CheckConfig, v Result) string {
 		// tape directly and let the runner record what it can
 		vals = regenerate(v.Seed)
 	}
-	best, res, tries := Shrink(run, vals, v.Viol.Property, v.Viol.Kind, budget)
+	var best []uint64
+	var res Result
+	tries := 0
+	if budget > 0 {
+		best, res, tries = Shrink(run, vals, v.Viol.Property, v.Viol.Kind, budget)
+	} else {
+		best, res = vals, v
+	}
 	if !slow && (res.Viol == nil || res.Viol.Kind != v.Viol.Kind) && v.StartProcs != StartProcs {
 		// not reproducible in this process: the violation may depend on
 		// the GOMAXPROCS the worker process was started with
